@@ -229,6 +229,15 @@ impl Body for KvBody {
                 db.verif_step(idx).expect("prep flush");
             }
         }
+        // "[two-keyspaces]": a second keyspace gets a sealed memtable (and its flush task) first
+        let _other = if self.name.contains("[two-keyspaces]") {
+            let y = db.keyspace("y", KeyspaceCreateOptions::default).expect("keyspace y");
+            y.insert("q", "0").expect("prep insert");
+            y.rotate_memtable().expect("prep rotate");
+            Some(y)
+        } else {
+            None
+        };
         for i in 0..self.presealed {
             ks.insert("p", format!("{i}")).expect("prep insert");
             initial.insert("p".to_string(), format!("{i}"));
@@ -326,6 +335,24 @@ pub fn bodies(tier: &str) -> Vec<BodySpec> {
             secs: if q { 5.0 } else { 120.0 },
         });
     }
+    {
+        use crate::props::c06::{Act, Finals, Kind, VisBody};
+        // lock order: a batch / transaction commit against the worker's journal rotation (journal lock, journal manager,
+        // keyspace map) — every writer must still get through
+        v.push(BodySpec {
+            body: Arc::new(VisBody { name: "batch commit || insert || worker: journal rotation + flush [jrot] [focus:commit-path]", kind: Kind::Plain, workers: 1, keyspaces: vec!["x", "y"], initial: vec![("x", "a", "0")], prerotate: vec!["x"], threads: vec![vec![Act::Batch(vec![("x", "b", "1"), ("y", "a", "1")])], vec![Act::Ins(("y", "b", "1"))]], finals: Finals::PointVsScan }),
+            bound: if q { 1 } else { 2 },
+            secs: if q { 4.0 } else { 120.0 },
+        });
+        v.push(BodySpec {
+            body: Arc::new(VisBody { name: "sw-tx commit || worker: journal rotation + flush [jrot] [focus:commit-path]", kind: Kind::Sw, workers: 1, keyspaces: vec!["x", "y"], initial: vec![("x", "a", "0")], prerotate: vec!["x"], threads: vec![vec![Act::Tx(vec![("x", "b", "1"), ("y", "a", "1")])]], finals: Finals::PointVsScan }),
+            bound: if q { 1 } else { 2 },
+            secs: if q { 3.0 } else { 120.0 },
+        });
+    }
+    // two keyspaces share the flush queue: y has a queued flush when x seals four memtables; the writer of x is in the
+    // write stall and only x's flush lets it proceed
+    v.push(b(KvBody { name: "write-stall(4 sealed) while another keyspace's flush is queued +worker [two-keyspaces]", workers: 1, tiny: false, presealed: 4, pre_l0: 0, jrot: false, initial: vec![], threads: vec![vec![Ins("a", "9"), Get("a")]] }, if q { 1 } else { 2 }, if q { 3.0 } else { 120.0 }));
     if !q {
         v.push(b(KvBody { name: "journal-rotation+2workers", workers: 2, tiny: true, presealed: 0, pre_l0: 0, jrot: true, initial: vec![("a", "0")], threads: vec![vec![Ins("a", "1"), Ins("b", "1")], vec![Rem("a"), Get("b")], vec![Get("a"), Scan]] }, 2, 300.0));
         v.push(b(KvBody { name: "3writers-same-key", workers: 0, tiny: false, presealed: 0, pre_l0: 0, jrot: false, initial: vec![], threads: vec![vec![Ins("a", "1"), Get("a")], vec![Ins("a", "2"), Get("a")], vec![Ins("a", "3"), Get("a")]] }, 3, 300.0));
